@@ -162,7 +162,18 @@ def _gen_util(rng, tier):
         n = rng.choice([1, 2, 2, 3, 3, 4])
         yield {"grid_radians": grid, "uv": uv, "image": gens.reals(rng, (p,), -5.0, 5.0, special=False),
                "matrix": _signed(rng, (p, n)),
-               "vis": gens.reals(rng, (uv.shape[0], 2), -5.0, 5.0, special=False)}
+               "vis": _zeroed(rng, gens.reals(rng, (uv.shape[0], 2), -5.0, 5.0, special=False))}
+
+
+def _zeroed(rng, v):
+    """some real parts exactly 0 next to a non-zero imaginary part and vice versa: 0 + 2i is a visibility like any other"""
+    for k in range(v.shape[0]):
+        r = rng.random()
+        if r < 0.2:
+            v[k, 0] = 0.0
+        elif r < 0.3:
+            v[k, 1] = 0.0
+    return v
 
 
 def _gen_class(rng, tier):
@@ -174,7 +185,7 @@ def _gen_class(rng, tier):
         yield {"mask": m, "pixel_scales": ps, "origin": origin, "uv": uv,
                "image": gens.reals(rng, m.shape, -5.0, 5.0, special=False),
                "matrix": _signed(rng, (p, n)),
-               "vis": gens.reals(rng, (uv.shape[0], 2), -5.0, 5.0, special=False)}
+               "vis": _zeroed(rng, gens.reals(rng, (uv.shape[0], 2), -5.0, 5.0, special=False))}
 
 
 def _nt_util(grid_radians, uv, image, matrix, vis):
@@ -357,7 +368,7 @@ def _gen_dv(rng, tier):
     for _ in range(gens.budget(tier, 2000, 40000)):
         k, n = rng.randint(1, 6), rng.randint(1, 4)
         yield {"t_real": gens.reals(rng, (k, n), -5, 5, special=False), "t_imag": gens.reals(rng, (k, n), -5, 5, special=False),
-               "vis": gens.reals(rng, (k, 2), -5, 5, special=False), "noise": _noise(rng, k)}
+               "vis": _zeroed(rng, gens.reals(rng, (k, 2), -5, 5, special=False)), "noise": _noise(rng, k)}
 
 
 def _gram(T, d, sig):
@@ -396,7 +407,7 @@ def _gen_inv(rng, tier):
         yield {"mask": m, "pixel_scales": ps, "origin": origin, "uv": uv,
                "matrix": _signed(rng, (p, rng.randint(1, 3))),
                "matrix2": _signed(rng, (p, rng.randint(1, 2))) if two else None,
-               "vis": gens.reals(rng, (k, 2), -5, 5, special=False), "noise": _noise(rng, k),
+               "vis": _zeroed(rng, gens.reals(rng, (k, 2), -5, 5, special=False)), "noise": _noise(rng, k),
                "preload": bool(rng.getrandbits(1))}
 
 
@@ -434,6 +445,22 @@ def interferometer_inversion_gram(mask, pixel_scales, origin, uv, matrix, matrix
         return "data_vector != noise-weighted real+imag products: %r vs %r" % (got_d, D)
     if got_f.shape != F.shape or np.abs(got_f - F).max() > tol_f:
         return "curvature_matrix != Tr^T Wr Tr + Ti^T Wi Ti: %r vs %r" % (got_f, F)
+    # the same statement in the other order of reads, on a fresh inversion: curvature matrix first, then the data vector and
+    # the transformed mapping matrix; and everything once more on the first inversion
+    objs2 = [aa.m.MockLinearObj(parameters=mm.shape[1], mapping_matrix=mm.copy(),
+                                regularization=aa.m.MockRegularization(regularization_matrix=np.eye(mm.shape[1]))) for mm in mats]
+    ds2 = aa.DatasetInterface(data=aa.Visibilities(visibilities=d.copy()), noise_map=aa.VisibilitiesNoiseMap(visibilities=sig.copy()), transformer=t)
+    inv2 = aa.InversionInterferometerMapping(dataset=ds2, linear_obj_list=objs2)
+    for label, i_ in (("curvature matrix read first", inv2), ("second read", inv)):
+        f2 = np.asarray(i_.curvature_matrix)
+        d2 = np.asarray(i_.data_vector)
+        T2 = np.asarray(i_.operated_mapping_matrix)
+        if f2.shape != F.shape or np.abs(f2 - F).max() > tol_f:
+            return "%s: curvature_matrix != Tr^T Wr Tr + Ti^T Wi Ti" % label
+        if d2.shape != D.shape or np.abs(d2 - D).max() > tol_d:
+            return "%s: data_vector != noise-weighted real+imag products of the transformed mapping matrix: %r vs %r" % (label, d2, D)
+        if not _close(T2, parts, float(np.abs(parts).sum())):
+            return "%s: operated mapping matrix is no longer the transformed mapping matrices side by side" % label
     return None
 
 
